@@ -19,7 +19,7 @@ def ttl_exact(x):
 
 TTLS = [None, None, None, ttl_exact(TICK), 0, -1.5, -1e6, ttl_exact(0.5), ttl_exact(5.5),
         ttl_exact(1e3), ttl_exact(1e12)]
-TAGS = [None, None, 't', 'u', 0, 7, 2.5, b't', '0', b'0', 0.0]
+TAGS = [None, None, 't', 'u', 0, 7, 2.5, b't', '0', b'0', 0.0, '', b'']
 ADVANCES = [0, 0, 0, TICK * 3, 0.25, 1.0, 6.0, 2000.0]
 
 
